@@ -129,6 +129,35 @@ def large_input_cases(draw):
     return case
 
 
+@st.composite
+def named_repeats_cases(draw):
+    """The recursive searches at the sizes where their nested levels run (4-5 bins, 8-10 items), items given BY NAME with many repeated
+    values: code that identifies an item by its value (a memo keyed by values, a difference of value lists) loses or duplicates names
+    only here."""
+    alg = draw(st.sampled_from(["rnp", "rnp", "rnp", "snp", "snp", "ckk", "cg"]))
+    k = draw(st.sampled_from([4, 5, 5, 5]))
+    n = cases.max_items(alg, k) - draw(st.sampled_from([0, 0, 0, 1]))
+    seed = draw(st.integers(0, 2 ** 48))
+    style = seed % 3
+    if style == 0:
+        pool = S.splitmix(seed, 3 + seed % 3, 1, 30)
+        values = [pool[i] for i in S.splitmix(seed + 1, n, 0, len(pool) - 1)]
+    elif style == 1:
+        half = S.splitmix(seed, (n + 1) // 2, 1, 40)
+        values = (half + half)[:n]
+    else:
+        values = S.splitmix(seed, n, 5, 30)
+        values[1] = values[0]
+        values[-1] = values[2]
+    keys = S.splitmix(seed + 2, n, 0, 2 ** 30)
+    values = [values[i] for i in sorted(range(n), key=lambda i: (keys[i], i))]
+    case = {"alg": alg, "values": values, "numbins": k, "nseed": draw(st.integers(0, 5)), "profile": "named-repeats",
+            "pres": draw(st.sampled_from(["dict-str", "dict-str", "dict-int", "names", "names-array"]))}
+    if alg == "cg":
+        case["opts"] = {"objective": draw(st.sampled_from(S.CG_OBJECTIVES))}
+    return case
+
+
 def valid_large(case):
     v, k = case.get("values"), case.get("numbins")
     return (case.get("alg") in ("multifit", "greedy", "kk", "roundrobin") and isinstance(v, list) and 1 <= len(v) <= 400
@@ -148,6 +177,10 @@ def legs(tier):
             "hypothesis: multifit (iterations 1..12) / greedy / kk / roundrobin on 5-16 evenly spread items (uniform, or one or two big + a few "
             "middle + several small), 2-6 bins: the cheap algorithms get tens of thousands of cases; same non-triviality rule",
             strategy=cheap_volume_cases(), n_quick=24000, n_thorough=400000, valid=cases.valid_partition_case, floor=0.1),
+        Leg("named-repeats-deep", evaluate,
+            "hypothesis: rnp / snp / ckk / cg with 4-5 bins at their largest sizes (rnp 9-10 items), items given by name (dict, names + value "
+            "function, id array) with many repeated values; same predicates and rule",
+            strategy=named_repeats_cases(), n_quick=1200, n_thorough=24000, valid=cases.valid_partition_case, floor=0.3, shards=16),
         Leg("large-inputs", evaluate,
             "hypothesis: multifit / greedy / kk / roundrobin on 40-303 items (sizes around powers of two included) and 2-40 bins, seven "
             "presentations, values up to 9 / 10^3 / 10^6, three repeated values, near-equal large values; same predicates and rule",
